@@ -11,7 +11,9 @@ two distances with a bearing, inserted traverse, in every order over 4-5 points,
 written without approximate coordinates, under names and document orders that hide the construction order.
 AcordHeights.tla: heights propagate along levelled differences, zenith angles (with slope distance, with
 horizontal distance, or alone between known positions) and vectors in either direction; the closure is reachability whatever the kinds along the path; every spanning tree over
-4-5 points in every mixture of kinds and directions, heights omitted."""
+4-5 points in every mixture of kinds and directions, heights omitted.
+Acord3D.tla: spatial networks in which position and height depend on each other (slope distance reduced by a
+zenith angle or by two known heights, zenith angle alone between known positions, vectors): two-sorted closure."""
 import sessions, acordnets
 LEVEL = "exploration"
 NOISE = "{0}"
@@ -60,6 +62,11 @@ def run(ctx):
     ch, rh.distinct = ch + ch2, rh.distinct + rh2.distinct
     sth = acordnets.run(ctx, ch, algs=(None,) if q else (None, "gso"), heights=True)
     ctx.note("AcordHeights: %d link histories (%d states), %d runs, %d heights derived" % (len(ch), rh.distinct, sth["runs"], sth["points_checked"]))
+    # positions and heights feeding each other (spatial networks, nothing but the fixed points given)
+    K3D = '{"polar3", "polar3b", "polardh", "polarza", "interza", "vec", "trilatdh"}'
+    r3, c3 = acordnets.generate(ctx, "c06s", {"NP": 4, "Kinds": K3D, "Keep": 13 if q else 1, "Seed": ctx.seed}, module="Acord3D")
+    st3d = acordnets.run(ctx, c3, algs=(None,), spatial=True)
+    ctx.note("Acord3D: %d construction histories (%d states), %d runs, %d points positioned in x, y, z" % (len(c3), r3.distinct, st3d["runs"], st3d["points_checked"]))
     ctx.note("AcordModel: %d construction histories over 5 points (%d states), %d over 4 points with further observations (%d states); %d runs, %d points positioned"
              % (len(ca), ra.distinct, len(cb), rb.distinct, sta["runs"] + stb["runs"], sta["points_checked"] + stb["points_checked"]))
     if ed:
@@ -68,12 +75,14 @@ def run(ctx):
     ctx.assume("observation values are computed from the true coordinates by textbook formulas in tools/session.py (trusted, 1e-10)")
     ctx.assume("tolerance 2e-6 m / 2e-7 gon on printed results")
     n = st0["truth_checks"] + st1["truth_checks"]
-    return {"evaluations": st0["runs"] + st1["runs"] + sta["runs"] + stb["runs"] + sth["runs"], "distinct_nontrivial": len(base) + len(ed) + len(pn) + len(ca) + len(cb) + len(ch),
+    return {"evaluations": st0["runs"] + st1["runs"] + sta["runs"] + stb["runs"] + sth["runs"] + st3d["runs"], "distinct_nontrivial": len(base) + len(ed) + len(pn) + len(ca) + len(cb) + len(ch) + len(c3),
             "acord_model": {"histories_5pts": len(ca), "histories_4pts_extra": len(cb), "runs": sta["runs"] + stb["runs"], "adjusted": sta["adjusted"] + stb["adjusted"],
                             "points_positioned": sta["points_checked"] + stb["points_checked"], "by_construction": sta["by_construction"],
                             "tlc_invariants": "Determined (constructed points are in the closure), Monotone (added observations never shrink the closure)"},
+            "acord_3d": {"histories": len(c3), "runs": st3d["runs"], "adjusted": st3d["adjusted"], "points_positioned": st3d["points_checked"],
+                         "by_construction": st3d["by_construction"]},
             "acord_heights": {"histories": len(ch), "runs": sth["runs"], "adjusted": sth["adjusted"], "heights_derived": sth["points_checked"],
                               "by_construction": sth["by_construction"]},
             "rule": "final states of SurveySession.tla with noise = 0 (thinned by KeepNet/KeepEdit/Seed); every network is distinct in template, "
                     "optional observations, axes, angle sense or circle orientation; non-trivial = all (each has >= 2 unknown points)",
-            "tlc_states": r0.distinct + r1.distinct + r2.distinct + ra.distinct + rb.distinct + rh.distinct, "law_checks": st1["law_checks"] + st2["law_checks"], "truth_checks": n, "adjusted": st0["adjusted"] + st1["adjusted"], "exhaustive": False}
+            "tlc_states": r0.distinct + r1.distinct + r2.distinct + ra.distinct + rb.distinct + rh.distinct + r3.distinct, "law_checks": st1["law_checks"] + st2["law_checks"], "truth_checks": n, "adjusted": st0["adjusted"] + st1["adjusted"], "exhaustive": False}
